@@ -38,6 +38,7 @@ declare -A PROP=(
  ["trait model Pull adapters stop with their context"]="C10"
  ["a bus Send that runs out of time at one listener"]="C10"
  ["a Value subscriber skips the event of a write"]="C04"
+ ["a brightness fade ends quietly"]="C02"
 )
 git -C /repo log --format='%h %s' | grep ' fix: ' | while read -r h subj; do
   prop=""
